@@ -25,7 +25,7 @@ ENTRIES = collections.OrderedDict()
 
 
 class Entry(object):
-    def __init__(self, name, n, build, flags="", ref=None, norm=None, empty=None, ahead=2, presort=None,
+    def __init__(self, name, n, build, flags="", ref=None, norm=None, empty=None, ahead=4, presort=None,
                  prepare=None, hdr=None, cells=None):
         self.name = name
         self.n = n
